@@ -160,11 +160,11 @@ def scaling_stream(rep, drv, rng, tier, check_move, simulate):
     t0 = time.time()
     # ---- in-process, at the interpreter's default recursion limit
     sizes = [5, 40, rng.randint(200, 400), rng.randint(1050, 1600)] if quick \
-        else [5, 40, 150, 400, 700, 990, 1010, rng.randint(1050, 1300), rng.randint(1300, 1600), 2200]
+        else [5, 40, 150, 400, 990, 1010, rng.randint(1050, 1600), 2200]
     plans = []
     for n in sizes:
         combos = [(dr, bl) for dr in ("down", "up") for bl in (None, None, "end", "middle", "adjacent")]
-        if quick and n > 600:       # every direction free for both preferences; one blocked each
+        if n > 600:                 # every direction free for both preferences; one blocked
             combos = [("down", None), ("up", None), (rng.choice(["down", "up"]), rng.choice(["end", "middle"]))]
         for dr, bl in combos:
             for left in (False, True):
